@@ -36,7 +36,8 @@ func Division(left, right value.Value) error {
 				return errors.WithStack(fmt.Errorf("FLOAT literal could not divide to INTEGER"))
 			}
 			rv := value.Unwrap[*value.Float](right)
-			if rv.Value == 0 {
+			// divisor is truncated to integer, e.g 0.5 will be zero
+			if rv.Value == 0 || int64(rv.Value) == 0 {
 				lv.IsNAN = true
 				return errors.WithStack(fmt.Errorf("division by zero"))
 			}
@@ -96,9 +97,15 @@ func Division(left, right value.Value) error {
 		switch right.Type() {
 		case value.IntegerType: // RTIME /= INTEGER
 			rv := value.Unwrap[*value.Integer](right)
+			if rv.Value == 0 {
+				return errors.WithStack(fmt.Errorf("division by zero"))
+			}
 			lv.Value /= time.Duration(rv.Value)
 		case value.FloatType: // RTIME /= FLOAT
 			rv := value.Unwrap[*value.Float](right)
+			if time.Duration(rv.Value) == 0 {
+				return errors.WithStack(fmt.Errorf("division by zero"))
+			}
 			lv.Value /= time.Duration(rv.Value)
 		default:
 			return errors.WithStack(fmt.Errorf("invalid division RTIME type, got %s", right.Type()))
